@@ -41,7 +41,10 @@ for _d in (KEYDIR, RUNDIR, REQDIR):
 ISS = "https://op.c12.example"
 RP_BASE = "https://rp.c12.example"
 CLIENT_ID = "c12-client"
-SECRET = "c12secret0123456789abcdef0123456789abcdef0123456789abcdef012345678"
+SECRET56 = "c12secret-0123456789abcdef0123456789abcdef0123456789abcd"   # 56 characters, the length Registration.secret() issues
+SECRET32 = "c12secret-0123456789abcdef012345"   # 32 characters
+assert len(SECRET56) == 56 and len(SECRET32) == 32
+ALL_RTS = ["code", "id_token", "code id_token"]
 USER = "diana"
 
 SIG_KEYDEFS = [
@@ -100,7 +103,6 @@ def _public(jwks):
 
 
 _KEYS = {}
-EXTRA_OP = {}     # experiments only: additional root configuration of the provider
 
 
 def op_jwks():
@@ -150,6 +152,10 @@ DEFAULT_CELL = {
     "ui_enc": None,            # None | (alg, enc)
     "transport": "plain",      # plain | request | request_uri | par
     "pkce": None,              # None | method name
+    # harness inputs that are not configuration dimensions of the property but decide outcomes on this tree
+    "secret_len": 32,          # 32 | 56 (client secret length; 56 is what the provider's registration issues)
+    "rp_all_rts": False,       # RP configured with all three response types (True) or only the cell's (False)
+    "op_explicit": True,       # provider configuration states response_types_supported explicitly
 }
 
 
@@ -164,6 +170,8 @@ class Pair:
 
     def __init__(self, cell, clock=None):
         self.cell = cell
+        self.secret = SECRET56 if cell.get("secret_len", 32) == 56 else SECRET32
+        self.rp_rts = list(ALL_RTS) if cell.get("rp_all_rts") else [cell["rt"]]
         self.log = []        # (endpoint, status, detail) of every dispatched HTTP exchange
         self.clock = clock
         self._build_op()
@@ -183,12 +191,12 @@ class Pair:
             "keys": {"uri_path": "jwks.json"},
             # stated explicitly: the merged endpoint `_supports` is last-endpoint-wins, and the pushed
             # authorization endpoint (configured after the OIDC authorization endpoint) says ["code"]
-            "response_types_supported": ["code", "id_token", "code id_token"],
             "scopes_supported": ["openid", "profile", "email", "address", "phone", "offline_access"],
             "encrypt_id_token_supported": True,
             "encrypt_userinfo_supported": True,
         }
-        extra.update(EXTRA_OP)
+        if c.get("op_explicit", True):
+            extra["response_types_supported"] = list(ALL_RTS)
         conf = srv.op_conf(jwt_access=c["at_jwt"], jwt_refresh=c["rf_jwt"], oidc=True, authz=AUTHZ,
                            add_ons=add_ons or None, extra=extra,
                            endpoints={"introspection": {"client_authn_method": [
@@ -210,8 +218,8 @@ class Pair:
         kj = KeyJar()
         kj.import_jwks(priv, "")
         kj.import_jwks(priv, CLIENT_ID)
-        kj.add_symmetric("", SECRET)
-        kj.add_symmetric(CLIENT_ID, SECRET)
+        kj.add_symmetric("", self.secret)
+        kj.add_symmetric(CLIENT_ID, self.secret)
         kj.httpc = self.httpc
         kj.httpc_params = {}
         services = {
@@ -236,7 +244,7 @@ class Pair:
         conf = {
             "base_url": RP_BASE,
             "client_id": CLIENT_ID,
-            "client_secret": SECRET,
+            "client_secret": self.secret,
             "client_type": "oidc",
             "issuer": ISS,
             "provider_info": {"issuer": ISS},
@@ -244,7 +252,7 @@ class Pair:
             "services": services,
             "client_authn_methods": ["client_secret_basic", "client_secret_post", "client_secret_jwt",
                                      "private_key_jwt", "bearer_header", "bearer_body"],
-            "response_types_supported": c.get("rp_rts") or [c["rt"]],
+            "response_types_supported": list(self.rp_rts),
             "response_modes_supported": ["query", "fragment", "form_post"],
             "token_endpoint_auth_methods_supported": [c["auth"]],
             "id_token_signing_alg_values_supported": [c["idt_sig"]],
@@ -285,7 +293,7 @@ class Pair:
         use = rctx.claims.use
         rec = {
             "client_id": CLIENT_ID,
-            "client_secret": SECRET,
+            "client_secret": self.secret,
             "client_salt": "salted",
             "redirect_uris": [(u, None) for u in (use.get("redirect_uris") or [])],
             "allowed_scopes": ["openid", "profile", "email", "address", "phone", "offline_access"],
@@ -302,7 +310,7 @@ class Pair:
         if use.get("request_uris"):
             rec["request_uris"] = [(u, None) for u in use["request_uris"]]
         self.ctx.cdb[CLIENT_ID] = rec
-        self.server.keyjar.add_symmetric(CLIENT_ID, SECRET)
+        self.server.keyjar.add_symmetric(CLIENT_ID, self.secret)
         self.server.keyjar.import_jwks(self.rp_pub_jwks, CLIENT_ID)
         self.rp_use = {k: v for k, v in use.items() if k not in ("client_secret", "jwks")}
         return rec
@@ -379,6 +387,33 @@ class FlowFailure(Exception):
     def __init__(self, stage, detail):
         Exception.__init__(self, "%s: %s" % (stage, detail))
         self.stage, self.detail = stage, detail
+        self.where = stage      # canonical place of the failure, refined by run_flow
+
+
+# canonical failure places (what the model predicts):
+#   rp_init        the relying party cannot construct the authorization request
+#   par            the pushed-authorization endpoint refuses the pushed request
+#   authz_parse    the provider's authorization endpoint refuses the request when parsing it
+#   authz_process  ... refuses / answers with an error when processing it
+#   token          the token request fails
+#   userinfo       the userinfo request fails
+#   other:<stage>  anything else
+def canonical_where(stage, log):
+    if stage == "init_authorization":
+        for name, status, _ in reversed(log):
+            if name == "pushed_authorization" and status != 200:
+                return "par"
+        return "rp_init"
+    if stage in ("authz_parse",):
+        return "authz_parse"
+    if stage in ("authz_process", "authorization_response", "authorization"):
+        return "authz_process"
+    if stage == "finalize":
+        for name, status, _ in reversed(log):
+            if status != 200 and name in ("token", "userinfo"):
+                return name
+        return "other:finalize"
+    return "other:" + stage
 
 
 def jose_headers(token):
@@ -412,10 +447,13 @@ def run_flow(pair, scope, claims=None, extra_args=None, do_refresh=True, do_intr
     def stage(name, fn):
         try:
             r = fn()
-        except FlowFailure:
+        except FlowFailure as f:
+            f.where = canonical_where(f.stage, pair.log)
             raise
         except Exception as e:
-            raise FlowFailure(name, "%s: %s | log=%s" % (type(e).__name__, str(e)[:300], pair.log[-3:]))
+            f = FlowFailure(name, "%s: %s | log=%s" % (type(e).__name__, str(e)[:300], pair.log[-3:]))
+            f.where = canonical_where(name, pair.log)
+            raise f
         obs["stages"].append(name)
         return r
 
@@ -485,7 +523,9 @@ def run_flow(pair, scope, claims=None, extra_args=None, do_refresh=True, do_intr
     obs["delivered_keys"] = sorted(delivered)
     obs["delivered"] = dict(delivered)
     if "error" in delivered:
-        raise FlowFailure("authorization_response", str(delivered)[:400])
+        f = FlowFailure("authorization_response", str(delivered)[:400])
+        f.where = "authz_process"
+        raise f
 
     pair.last_token_response = None
     pair.last_userinfo_wire = None
